@@ -12,7 +12,8 @@
                       `branchFlatten_rows`, `reshapeFeatOld_mixes_rows` (negative result about the pinned snapshot)
   * branch variants:  `meshgrid_eq`, `functionSet_rows`, `collection_rows`, `branch_variants_agree`
   * fast trunk path:  `fastLinear_eq_plain`, `fastLinear_r2`, `fastNet_eq_plainNet`, `fastNet_r2`,
-                      `forward_fast_eq_plain`, `forward_fast_eq_plain_r2`, `fastLinear_ne_plain_unshared` (the precondition is needed)
+                      `forward_fast_eq_plain`, `forward_fast_eq_plain_r2` (all over per-layer activation LISTS),
+                      `fcNet_three`, `fcNet_activation_order_matters`, `fastLinear_ne_plain_unshared` (the precondition is needed)
   * coded backward:   `vjp_input`, `vjp_weight`, `vjp_bias` (exact vector-Jacobian products of the affine layer),
                       `gradWeight_eq_plain`, `gradInput_adjoint` (second order)
   Non-vacuity examples (concrete data meeting the hypotheses) are collected at the end of the file.
@@ -272,36 +273,55 @@ theorem fastLinear_r2 (L : Layer K) (x : List (List K)) :
   simp [fastLinear, plainLinear, T23.map]
 
 /-- the whole fast trunk network equals the plain network with the same weights on a shared input:
-    any depth, any widths, any activation -/
-theorem fastNet_eq_plainNet (act : K → K) : ∀ (layers : List (Layer K)) (n : Nat) (x : List (List K)),
-    fcNet fastLinear act layers (.r3 (List.replicate (n + 1) x)) =
-    fcNet plainLinear act layers (.r3 (List.replicate (n + 1) x))
-  | [], _, _ => by simp [fcNet]
-  | [l], n, x => by simp only [fcNet]; exact fastLinear_eq_plain l n x
-  | l :: l' :: ls, n, x => by
+    any depth, any widths, and ANY LIST of per-layer activations (`acts[i]` follows hidden layer `i`;
+    the statement quantifies over the list, so the layers may all use different activations; a list
+    that is too short makes both builders fail alike) -/
+theorem fastNet_eq_plainNet : ∀ (acts : List (K → K)) (layers : List (Layer K)) (n : Nat) (x : List (List K)),
+    fcNet fastLinear acts layers (.r3 (List.replicate (n + 1) x)) =
+    fcNet plainLinear acts layers (.r3 (List.replicate (n + 1) x))
+  | _, [], _, _ => by simp [fcNet]
+  | _, [l], n, x => by simp only [fcNet]; exact fastLinear_eq_plain l n x
+  | [], _ :: _ :: _, _, _ => by simp [fcNet]
+  | a :: acts, l :: l' :: ls, n, x => by
     simp only [fcNet]
     rw [fastLinear_eq_plain]
     simp only [plainLinear, T23.map, List.map_replicate, bind, Except.bind]
-    exact fastNet_eq_plainNet act (l' :: ls) n _
+    exact fastNet_eq_plainNet acts (l' :: ls) n _
 
-theorem fastNet_r2 (act : K → K) : ∀ (layers : List (Layer K)) (x : List (List K)),
-    fcNet fastLinear act layers (.r2 x) = fcNet plainLinear act layers (.r3 [x])
-  | [], _ => by simp [fcNet]
-  | [l], x => by simp only [fcNet]; exact fastLinear_r2 l x
-  | l :: l' :: ls, x => by
+theorem fastNet_r2 : ∀ (acts : List (K → K)) (layers : List (Layer K)) (x : List (List K)),
+    fcNet fastLinear acts layers (.r2 x) = fcNet plainLinear acts layers (.r3 [x])
+  | _, [], _ => by simp [fcNet]
+  | _, [l], x => by simp only [fcNet]; exact fastLinear_r2 l x
+  | [], _ :: _ :: _, _ => by simp [fcNet]
+  | a :: acts, l :: l' :: ls, x => by
     simp only [fcNet]
     rw [fastLinear_r2]
     simp only [plainLinear, T23.map, List.map_cons, List.map_nil, bind, Except.bind]
-    exact fastNet_eq_plainNet act (l' :: ls) 0 _
+    exact fastNet_eq_plainNet acts (l' :: ls) 0 _
 
-/-- consequently the whole DeepONet with the fast trunk equals the one with the plain trunk -/
-theorem forward_fast_eq_plain (act : K → K) (d neurons : Nat) (trunk branch : List (Layer K)) (inputDim : Nat)
-    (n : Nat) (x : List (List K)) (fb : List (List (List K))) :
-    forward true act d neurons trunk branch inputDim (.r3 (List.replicate (n + 1) x)) fb =
-    forward false act d neurons trunk branch inputDim (.r3 (List.replicate (n + 1) x)) fb := by
+/-- consequently the whole DeepONet with the fast trunk equals the one with the plain trunk
+    (per-layer activation lists `tacts` of the trunk and `bacts` of the branch) -/
+theorem forward_fast_eq_plain (tacts bacts : List (K → K)) (d neurons : Nat) (trunk branch : List (Layer K))
+    (inputDim : Nat) (n : Nat) (x : List (List K)) (fb : List (List (List K))) :
+    forward true tacts bacts d neurons trunk branch inputDim (.r3 (List.replicate (n + 1) x)) fb =
+    forward false tacts bacts d neurons trunk branch inputDim (.r3 (List.replicate (n + 1) x)) fb := by
   simp only [forward, if_true, Bool.false_eq_true, if_false, fastNet_eq_plainNet]
 
+/-- which activation follows which layer: three layers, `a₀` after the first, `a₁` after the second,
+    none after the last (the order `construct_FC_trunk_layers` and `_construct_FC_layers` must both produce) -/
+theorem fcNet_three (lin : Layer K → T23 K → Except String (T23 K)) (a0 a1 : K → K) (l0 l1 l2 : Layer K) (x : T23 K) :
+    fcNet lin [a0, a1] [l0, l1, l2] x =
+      (do let y0 ← lin l0 x; let y1 ← lin l1 (y0.map (·.map a0)); lin l2 (y1.map (·.map a1))) := by
+  simp only [fcNet]
+
 end
+
+/-- the order of the activations matters: the same weights with the activation list `[a₀, a₀]`
+    (what an off-by-one in the fast builder would produce) give a different network than `[a₀, a₁]` -/
+theorem fcNet_activation_order_matters :
+    fcNet (K := Int) plainLinear [(· * 2), (· + 1)] [⟨[[1]], none⟩, ⟨[[1]], none⟩, ⟨[[1]], none⟩] (.r2 [[3]]) = .ok (.r2 [[7]]) ∧
+    fcNet (K := Int) plainLinear [(· * 2), (· * 2)] [⟨[[1]], none⟩, ⟨[[1]], none⟩, ⟨[[1]], none⟩] (.r2 [[3]]) = .ok (.r2 [[12]]) := by
+  constructor <;> rfl
 
 /-- the precondition is needed: on copies that differ the fast layer answers with the first copy -/
 theorem fastLinear_ne_plain_unshared :
@@ -320,13 +340,14 @@ def unsq : T23 K → T23 K
   | .r2 y => .r3 [y]
   | .r3 y => .r3 y
 
-theorem plainNet_unsq (act : K → K) : ∀ (layers : List (Layer K)) (x : List (List K)),
-    fcNet plainLinear act layers (.r3 [x]) = (fcNet plainLinear act layers (.r2 x)).map unsq
-  | [], _ => by simp [fcNet, Except.map]
-  | [l], x => by simp [fcNet, plainLinear, T23.map, Except.map, unsq]
-  | l :: l' :: ls, x => by
+theorem plainNet_unsq : ∀ (acts : List (K → K)) (layers : List (Layer K)) (x : List (List K)),
+    fcNet plainLinear acts layers (.r3 [x]) = (fcNet plainLinear acts layers (.r2 x)).map unsq
+  | _, [], _ => by simp [fcNet, Except.map]
+  | _, [l], x => by simp [fcNet, plainLinear, T23.map, Except.map, unsq]
+  | [], _ :: _ :: _, _ => by simp [fcNet, Except.map]
+  | a :: acts, l :: l' :: ls, x => by
     simp only [fcNet, plainLinear, T23.map, List.map_cons, List.map_nil, bind, Except.bind]
-    exact plainNet_unsq act (l' :: ls) _
+    exact plainNet_unsq acts (l' :: ls) _
 
 /-- length of one output row of a layer whose bias (if any) is as long as the weight has rows -/
 theorem affineRow_length (L : Layer K) (hb : ∀ b, L.b = some b → b.length = L.W.length) (x : List K) :
@@ -338,28 +359,30 @@ theorem affineRow_length (L : Layer K) (hb : ∀ b, L.b = some b → b.length = 
     | some b => simp [affineRow, vadd, hb b rfl]
 
 /-- all rows of the output of a plain network have the width of the last layer -/
-theorem plainNet_rows (act : K → K) (n : Nat) : ∀ (layers : List (Layer K)) (x y : List (List K)),
+theorem plainNet_rows (n : Nat) : ∀ (acts : List (K → K)) (layers : List (Layer K)) (x y : List (List K)),
     (∀ l ∈ layers.getLast?, l.W.length = n ∧ ∀ b, l.b = some b → b.length = l.W.length) →
-    fcNet plainLinear act layers (.r2 x) = .ok (.r2 y) → ∀ r ∈ y, r.length = n
-  | [], _, _, _, h => by simp [fcNet] at h
-  | [l], x, y, hl, h => by
+    fcNet plainLinear acts layers (.r2 x) = .ok (.r2 y) → ∀ r ∈ y, r.length = n
+  | _, [], _, _, _, h => by simp [fcNet] at h
+  | _, [l], x, y, hl, h => by
     simp only [fcNet, plainLinear, T23.map, Except.ok.injEq, T23.r2.injEq] at h
     subst h
     intro r hr
     obtain ⟨xr, _, rfl⟩ := List.mem_map.1 hr
     have := hl l (by simp)
     rw [affineRow_length l this.2, this.1]
-  | l :: l' :: ls, x, y, hl, h => by
+  | [], _ :: _ :: _, _, _, _, h => by simp [fcNet] at h
+  | a :: acts, l :: l' :: ls, x, y, hl, h => by
     simp only [fcNet, plainLinear, T23.map, bind, Except.bind] at h
-    exact plainNet_rows act n (l' :: ls) _ y (by simpa using hl) h
+    exact plainNet_rows n acts (l' :: ls) _ y (by simpa using hl) h
 
-theorem plainNet_r2_shape (act : K → K) : ∀ (layers : List (Layer K)) (x : List (List K)),
-    (∃ y, fcNet plainLinear act layers (.r2 x) = .ok (.r2 y)) ∨ (∃ e, fcNet plainLinear act layers (.r2 x) = .error e)
-  | [], _ => by simp [fcNet]
-  | [l], x => by simp [fcNet, plainLinear, T23.map]
-  | l :: l' :: ls, x => by
+theorem plainNet_r2_shape : ∀ (acts : List (K → K)) (layers : List (Layer K)) (x : List (List K)),
+    (∃ y, fcNet plainLinear acts layers (.r2 x) = .ok (.r2 y)) ∨ (∃ e, fcNet plainLinear acts layers (.r2 x) = .error e)
+  | _, [], _ => by simp [fcNet]
+  | _, [l], x => by simp [fcNet, plainLinear, T23.map]
+  | [], _ :: _ :: _, _ => by simp [fcNet]
+  | a :: acts, l :: l' :: ls, x => by
     simp only [fcNet, plainLinear, T23.map, bind, Except.bind]
-    exact plainNet_r2_shape act (l' :: ls) _
+    exact plainNet_r2_shape acts (l' :: ls) _
 
 
 theorem trunkReshape_unsq (d neurons : Nat) (hf : finalizeOk d neurons = true) (hn : 0 < neurons)
@@ -376,12 +399,12 @@ theorem trunkReshape_unsq (d neurons : Nat) (hf : finalizeOk d neurons = true) (
 
 /-- the whole DeepONet on a rank-2 trunk input (the usual `(locations, dim)` batch): fast trunk = plain
     trunk, for every architecture whose last trunk layer produces `neurons` features -/
-theorem forward_fast_eq_plain_r2 (act : K → K) (d neurons : Nat) (trunk branch : List (Layer K)) (inputDim : Nat)
-    (x : List (List K)) (fb : List (List (List K)))
+theorem forward_fast_eq_plain_r2 (tacts bacts : List (K → K)) (d neurons : Nat) (trunk branch : List (Layer K))
+    (inputDim : Nat) (x : List (List K)) (fb : List (List (List K)))
     (hf : finalizeOk d neurons = true) (hn : 0 < neurons)
     (hl : ∀ l ∈ trunk.getLast?, l.W.length = neurons ∧ ∀ b, l.b = some b → b.length = l.W.length) :
-    forward true act d neurons trunk branch inputDim (.r2 x) fb =
-    forward false act d neurons trunk branch inputDim (.r2 x) fb := by
+    forward true tacts bacts d neurons trunk branch inputDim (.r2 x) fb =
+    forward false tacts bacts d neurons trunk branch inputDim (.r2 x) fb := by
   unfold forward
   simp only [if_true, Bool.false_eq_true, if_false]
   refine bind_congr fun bin => bind_congr fun bout => ?_
@@ -390,10 +413,10 @@ theorem forward_fast_eq_plain_r2 (act : K → K) (d neurons : Nat) (trunk branch
   | r2 rows =>
     refine bind_congr fun bfeat => ?_
     rw [fastNet_r2, plainNet_unsq]
-    rcases plainNet_r2_shape act trunk x with ⟨y, hy⟩ | ⟨e, he⟩
+    rcases plainNet_r2_shape tacts trunk x with ⟨y, hy⟩ | ⟨e, he⟩
     · rw [hy]
       simp only [Except.map, bind, Except.bind, unsq]
-      rw [trunkReshape_unsq d neurons hf hn y (plainNet_rows act neurons trunk x y hl hy)]
+      rw [trunkReshape_unsq d neurons hf hn y (plainNet_rows neurons tacts trunk x y hl hy)]
     · rw [he]; rfl
 
 end
@@ -965,20 +988,26 @@ example : batchOfCollection [((fun v => [v.sum]), [[1]]), ((fun v => [2 * v.sum]
     [[[11], [21]], [[24], [44]], [[26], [46]]] := by decide
 
 /-- `fastNet_eq_plainNet`, `fastNet_r2`: a two-layer network with a non-linear activation -/
-example : fcNet fastLinear (fun z => z * z) [L1, L2] (.r3 (List.replicate 2 x0)) =
+example : fcNet fastLinear [(fun z => z * z)] [L1, L2] (.r3 (List.replicate 2 x0)) =
       .ok (.r3 [[[50, 86], [35, 81]], [[50, 86], [35, 81]]]) ∧
-    fcNet plainLinear (fun z => z * z) [L1, L2] (.r3 (List.replicate 2 x0)) =
+    fcNet plainLinear [(fun z => z * z)] [L1, L2] (.r3 (List.replicate 2 x0)) =
       .ok (.r3 [[[50, 86], [35, 81]], [[50, 86], [35, 81]]]) ∧
-    fcNet fastLinear (fun z => z * z) [L1, L2] (.r2 x0) = .ok (.r3 [[[50, 86], [35, 81]]]) := by
+    fcNet fastLinear [(fun z => z * z)] [L1, L2] (.r2 x0) = .ok (.r3 [[[50, 86], [35, 81]]]) := by
   refine ⟨rfl, rfl, rfl⟩
 
+/-- `fastNet_eq_plainNet` with two DIFFERENT activations (square after layer 0, `+1` after layer 1) -/
+example : fcNet fastLinear [(fun z => z * z), (· + 1)] [L1, L2, ⟨[[1, 1]], none⟩] (.r3 (List.replicate 2 x0)) =
+      .ok (.r3 [[[138], [118]], [[138], [118]]]) ∧
+    fcNet plainLinear [(fun z => z * z), (· + 1)] [L1, L2, ⟨[[1, 1]], none⟩] (.r3 (List.replicate 2 x0)) =
+      .ok (.r3 [[[138], [118]], [[138], [118]]]) := ⟨rfl, rfl⟩
+
 /-- `forward_fast_eq_plain`: a whole DeepONet, 2 functions (different outputs), 2 locations -/
-example : forward true (fun z => z * z) 1 2 [L1, ⟨[[1, 0, 1], [0, 1, 0]], none⟩]
+example : forward true [(fun z => z * z)] [(fun z => z * z)] 1 2 [L1, ⟨[[1, 0, 1], [0, 1, 0]], none⟩]
       [⟨[[1, 1]], some [0]⟩, ⟨[[1], [2]], none⟩] 2 (.r3 (List.replicate 2 x0)) [[[1], [2]], [[1], [3]]] =
     .ok [[[477], [522]], [[848], [928]]] := by rfl
 
 /-- `forward_fast_eq_plain_r2`: the same DeepONet on the rank-2 batch of locations; hypotheses satisfiable -/
-example : forward true (fun z => z * z) 1 2 [L1, ⟨[[1, 0, 1], [0, 1, 0]], none⟩]
+example : forward true [(fun z => z * z)] [(fun z => z * z)] 1 2 [L1, ⟨[[1, 0, 1], [0, 1, 0]], none⟩]
       [⟨[[1, 1]], some [0]⟩, ⟨[[1], [2]], none⟩] 2 (.r2 x0) [[[1], [2]], [[1], [3]]] =
     .ok [[[477], [522]], [[848], [928]]] ∧ finalizeOk 1 2 = true := ⟨by rfl, by decide⟩
 
